@@ -164,6 +164,10 @@ impl RsdpV2Tag {
     /// Validation of the RSDPv2 extended checksum
     #[must_use]
     pub fn checksum_is_valid(&self) -> bool {
+        // A stored length that exceeds the RSDP embedded in this tag is invalid.
+        if self.length as usize > core::mem::size_of::<Self>() - core::mem::size_of::<TagHeader>() {
+            return false;
+        }
         let bytes = unsafe {
             slice::from_raw_parts(self as *const _ as *const u8, self.length as usize + 8)
         };
